@@ -20,7 +20,7 @@ WITNESS_RULES = {'R5-runtime-stateless', 'R5-no-compile-at-runtime', 'R5-fixture
 
 class Ob:
     """one rule instance evaluated on one construct"""
-    __slots__ = ('rule', 'file', 'function', 'statement', 'verdict', 'reason', 'line', 'clause', 'fkey')
+    __slots__ = ('rule', 'file', 'function', 'statement', 'verdict', 'reason', 'line', 'clause', 'fkey', 'witness')
 
     def __init__(self, rule, file, function, statement, verdict, reason, line=0, clause='', fkey=None):
         self.rule, self.file, self.function = rule, file, function
@@ -29,6 +29,7 @@ class Ob:
         # what fails, named independently of how the source spells it (survives refactoring):
         # known findings are matched on it when the rule provides one
         self.fkey = fkey
+        self.witness = False
 
     def key(self):
         return (self.rule, self.file, self.function, self.statement)
@@ -73,6 +74,7 @@ class Ctx:
                 ok = None
                 reason = 'no verdict: the function uses constructs whose flow the analysis does not resolve (%s), so this is not evidence of a violation [%s]' % ('; '.join(feats[:3]), reason)
         o = Ob(rule, file, function, statement, verdict, reason, line, clause, key)
+        o.witness = bool(witness) or rule in WITNESS_RULES
         self.obs.append(o)
         return ok
 
